@@ -94,6 +94,7 @@ type Ctx struct {
 	Sched     Yielder // nil outside C18
 	TickYield bool    // yield at every tick (mode B)
 	NoState   bool    // do not snapshot state (variant has none)
+	Shared    bool    // several Parse calls may be in flight (C18)
 }
 
 func (c *Ctx) Tick() {
@@ -324,7 +325,8 @@ type Obs struct {
 	HasStats bool
 	Ticks    int
 	Diverged bool
-	Choice   string // canonical ChoiceAltCnt (Statistics)
+	Choice   string   // canonical ChoiceAltCnt (Statistics)
+	Pool     []string // pool discipline breaches seen during this call
 }
 
 // Flags is a generation flag set as far as the runtime variant is concerned.
